@@ -157,7 +157,7 @@ pub fn run(tier: Tier, seed: u64) -> i32 {
             return run.finish();
         }
     }
-    run.random("random", tier.pick(60_000, 2_000_000), 400, case_random);
+    run.random("random", tier.pick(2_000_000, 60_000_000), 400, case_random);
     run.finish()
 }
 
